@@ -128,6 +128,12 @@ def r6_2(ctx: Ctx, E: Effects, rule="R6.2"):
             n_wb += 1
             wb_targets.append(norm(st.targets[0].value))
             shapes.append("write-back to %s" % norm(st.targets[0].value))
+        elif isinstance(st, ast.Assign) and isinstance(st.targets[0], ast.Attribute) and st.targets[0].attr == "atoms_positions" \
+                and norm(st.targets[0].value) == MOLV[0] + "[1]":
+            # written through the ordered pair itself: the mobile element, whichever molecule that is
+            n_wb += 2
+            wb_targets += ["self.end", "self.start"]
+            shapes.append("write-back to the mobile element of the ordered pair")
         else:
             ok = False
             shapes.append("UNEXPECTED: " + txt)
@@ -143,7 +149,7 @@ def r6_2(ctx: Ctx, E: Effects, rule="R6.2"):
     if opt:
         v = norm(opt[0].targets[0])
         wbs = [s for s in writers if isinstance(s, ast.Assign)]
-        okv = bool(wbs) and all(norm(s.value) == v for s in wbs)
+        okv = bool(wbs) and all(norm(s.value) == v or s is opt[0] for s in wbs)
     ctx.ob(rule, f, opt[0] if opt else "optimiser call", okv,
            "what is written back is exactly the configuration returned by the optimiser", node=opt[0] if opt else f.node)
     # the translation happens before the roles are fixed and before positions are read for the optimiser
@@ -176,8 +182,21 @@ def r6_3(ctx: Ctx, rule="R6.3"):
             if any(isinstance(s, ast.Assign) and norm(s.targets[0]) == MOLV[0] for s in n.body + n.orelse):
                 order_if = n
             if any(isinstance(s, ast.Assign) and isinstance(s.targets[0], ast.Attribute) and s.targets[0].attr == "atoms_positions"
-                   for s in n.body + n.orelse):
+                   and norm(s.targets[0].value) != MOLV[0] + "[1]" for s in n.body + n.orelse):
                 wb_if = n
+    pair_wb = [s for s in walk_no_nested(f.node) if isinstance(s, ast.Assign) and isinstance(s.targets[0], ast.Attribute)
+               and s.targets[0].attr == "atoms_positions" and norm(s.targets[0].value) == MOLV[0] + "[1]"]
+    pair_form = order_if is not None and wb_if is None and len(pair_wb) == 1
+    if pair_form:
+        # the result is assigned through the ordered pair (`pair[1].atoms_positions = ...`): there is no second
+        # predicate to agree with; what remains is the ordering itself and that the write is not conditional
+        pm_ = parents_map(f.node)
+        opt_ = [s for s in walk_no_nested(f.node) if isinstance(s, (ast.Assign, ast.Expr)) and any(call_name(c) == "minimize_molecules" for c in calls_in(s))]
+        same = bool(opt_) and cguards_of(pair_wb[0], pm_) == cguards_of(opt_[0], pm_)
+        ctx.ob(rule, f, "write-back through the ordered pair: `%s`" % norm(pair_wb[0])[:70], same,
+               "the optimiser's result is assigned to the mobile element of the ordered pair under the same conditions "
+               "under which the optimiser runs", node=pair_wb[0])
+        wb_if = order_if
     if order_if is None or wb_if is None:
         ctx.ob(rule, f, "role predicates", True, "ordering / write-back branches not recognised; not decided", undecided=True)
         return
@@ -197,10 +216,11 @@ def r6_3(ctx: Ctx, rule="R6.3"):
     order_if, wb_if = _resolved(order_if), _resolved(wb_if)
     a, o_true, o_false = branches(order_if)
     b, w_true, w_false = branches(wb_if)
-    ctx.ob(rule, f, "ordering `%s` vs write-back `%s`" % (norm(order_if.test), norm(wb_if.test)), a == b,
-           "the predicate that decides which molecule is mobile and the one that decides where the result is "
-           "written are the same comparison" + ("" if a == b else " -- they differ (%s / %s): on some sizes the result is "
-                                                "written to the molecule that was held fixed" % (a, b)), node=wb_if)
+    if not pair_form:
+        ctx.ob(rule, f, "ordering `%s` vs write-back `%s`" % (norm(order_if.test), norm(wb_if.test)), a == b,
+               "the predicate that decides which molecule is mobile and the one that decides where the result is "
+               "written are the same comparison" + ("" if a == b else " -- they differ (%s / %s): on some sizes the result is "
+                                                    "written to the molecule that was held fixed" % (a, b)), node=wb_if)
     want, wpol = ctext("len(self.start) < len(self.end)")
     if not wpol:
         o_true, o_false, w_true, w_false = o_false, o_true, w_false, w_true
@@ -221,6 +241,8 @@ def r6_3(ctx: Ctx, rule="R6.3"):
         return None
     t_list, e_list = mol_list(o_true), mol_list(o_false)
     t_wb, e_wb = wb(w_true), wb(w_false)
+    if pair_form:
+        t_wb, e_wb = (t_list or [None, None])[1], (e_list or [None, None])[1]
     ok = t_list == ["self.end", "self.start"] and e_list == ["self.start", "self.end"] and t_wb == "self.start" and e_wb == "self.end"
     ctx.ob(rule, f, "start smaller: molecules=%s write-back=%s; otherwise: molecules=%s write-back=%s" % (t_list, t_wb, e_list, e_wb), ok,
            "in each branch the write-back target is the second (mobile) element of the ordered pair", node=order_if)
